@@ -10,6 +10,7 @@ package filter
 import (
 	"encoding/json"
 	"fmt"
+	"github.com/jackc/pglogrepl"
 	"math/rand"
 	"os"
 	"path/filepath"
@@ -34,7 +35,12 @@ type fmsg struct {
 }
 
 type fcase struct {
-	Mode      string   `json:"mode"`
+	Mode string `json:"mode"`
+	// Decoded: every row message reaches the filter the way it does in production - printed as
+	// test_decoding text ("table <relation>: <OP>: ...") and decoded by the real parser - instead of
+	// being handed over as a ready-made ParseResult.  The relations of such a case are names as
+	// PostgreSQL prints them (quote_identifier).
+	Decoded   bool     `json:"decoded,omitempty"`
 	Whitelist bool     `json:"whitelist"`
 	Regex     bool     `json:"regex"`
 	Tablelist []string `json:"tablelist"`
@@ -44,6 +50,8 @@ type fcase struct {
 type fobs struct {
 	Forwarded []int // indices of the input messages that came out, in order
 	Panicked  bool  // the stage stopped before consuming its whole input (recovered panic)
+	// Decoded cases: messages the real decoder refused
+	DecodeErrs []string
 }
 
 func isMarker(op string) bool { return op == "BEGIN" || op == "COMMIT" }
@@ -56,17 +64,33 @@ func runFilterImpl(c fcase) fobs {
 	in := make(chan *replication.WalMessage, len(c.Msgs)+1)
 	statsChan := make(chan stats.Stat, len(c.Msgs)+1)
 	f := realfilter.New(sh, in, statsChan, c.Whitelist, c.Regex, c.Tablelist)
+	var decodeErrs []string
 	for i, m := range c.Msgs {
 		pr := &parselogical.ParseResult{Operation: m.Op, Relation: m.Rel}
+		if c.Decoded && !isMarker(m.Op) {
+			text := "table " + m.Rel + ": " + m.Op + ": id[integer]:1 note[text]:'x: y'"
+			if m.Op == "TRUNCATE" {
+				text = "table " + m.Rel + ": TRUNCATE: (no-flags)"
+			}
+			wm, err := replication.XLogDataToWalMessage(pglogrepl.XLogData{WALStart: pglogrepl.LSN(i), WALData: []byte(text)})
+			if err != nil {
+				decodeErrs = append(decodeErrs, fmt.Sprintf("message %d %q: %v", i, text, err))
+				continue // (the client treats a decode error as fatal; here the message is simply missing)
+			}
+			wm.WalStart = uint64(i)
+			in <- wm
+			continue
+		}
 		in <- &replication.WalMessage{WalStart: uint64(i), Pr: pr}
 	}
 	close(in)
 	go f.Start()
 	var o fobs
+	o.DecodeErrs = decodeErrs
 	for m := range f.OutputChan {
 		o.Forwarded = append(o.Forwarded, int(m.WalStart))
 	}
-	o.Panicked = len(statsChan) < len(c.Msgs)
+	o.Panicked = len(statsChan) < len(c.Msgs)-len(decodeErrs)
 	return o
 }
 
@@ -165,8 +189,11 @@ func filterMonitor(c fcase, o fobs) (vs []core.Violation, inDomain bool) {
 		}
 	}
 	if o.Panicked || fmt.Sprint(want) != fmt.Sprint(o.Forwarded) {
-		vs = append(vs, core.Violation{Property: "C08", Signature: "filter-stage-mismatch",
-			What: fmt.Sprintf("filter stage forwarded %v (panicked=%v), the configured list permits %v", o.Forwarded, o.Panicked, want), Case: c})
+		what := fmt.Sprintf("filter stage forwarded %v (panicked=%v), the configured list permits %v", o.Forwarded, o.Panicked, want)
+		if len(o.DecodeErrs) > 0 {
+			what += "; the decoder refused: " + strings.Join(o.DecodeErrs, "; ")
+		}
+		vs = append(vs, core.Violation{Property: "C08", Signature: "filter-stage-mismatch", What: what, Case: c})
 	}
 	return vs, true
 }
@@ -210,7 +237,53 @@ func genStream(rng *rand.Rand) []fmsg {
 	return ms
 }
 
+// relations exactly as test_decoding prints them (quote_identifier on schema and table): the cases that
+// go through the real decoder use only these
+var printedPool = []string{
+	"public.a", "public.b", "public.ab", "public.customers", "s2.a", `public."A"`,
+	`public."Quoted.Name"`, `"My Schema"."t,1"`, `"a""b".c`, `public."audit: log"`, `"s: x".t`, `public."x: INSERT: y"`,
+	`public."tab[1]"`, `public."o'hara"`, `public."TRUNCATE"`, `public."table"`, `public."a, public.b"`,
+	"public.a_very_long_table_name_that_goes_on_and_on_and_on_0123456789",
+}
+
+func genDecodedCase(rng *rand.Rand) fcase {
+	c := fcase{Whitelist: rng.Intn(2) == 0, Regex: rng.Intn(3) == 0, Decoded: true}
+	for t := 1 + rng.Intn(3); t > 0; t-- {
+		c.Msgs = append(c.Msgs, fmsg{Op: "BEGIN"})
+		for k := rng.Intn(6); k > 0; k-- {
+			rel := pick(rng, printedPool)
+			op := []string{"INSERT", "UPDATE", "DELETE"}[rng.Intn(3)]
+			if rng.Intn(8) == 0 {
+				op = "TRUNCATE"
+				for j := rng.Intn(3); j > 0; j-- {
+					rel += ", " + pick(rng, printedPool)
+				}
+			}
+			c.Msgs = append(c.Msgs, fmsg{Op: op, Rel: rel})
+		}
+		c.Msgs = append(c.Msgs, fmsg{Op: "COMMIT"})
+	}
+	for i := rng.Intn(4); i > 0; i-- {
+		it := pick(rng, printedPool)
+		if c.Regex {
+			it = []string{"^" + regexp.QuoteMeta(it) + "$", regexp.QuoteMeta(it), `^public\.`, `: `, `^"`, `log"$`}[rng.Intn(6)]
+		} else if rng.Intn(6) == 0 {
+			for _, m := range c.Msgs {
+				if m.Op == "TRUNCATE" {
+					it = m.Rel
+				}
+			}
+		}
+		c.Tablelist = append(c.Tablelist, it)
+	}
+	c.Mode = "decoded-" + map[bool]string{true: "whitelist", false: "blacklist"}[c.Whitelist] + map[bool]string{true: "-regex", false: ""}[c.Regex]
+	return c
+}
+
 func genFilterCase(rng *rand.Rand, adversarial bool) fcase {
+	if !adversarial && rng.Intn(4) == 0 {
+		return genDecodedCase(rng)
+	}
 	c := fcase{Whitelist: rng.Intn(2) == 0, Regex: rng.Intn(2) == 0, Msgs: genStream(rng)}
 	n := rng.Intn(4)
 	if rng.Intn(8) == 0 {
